@@ -79,7 +79,7 @@ def run(tier):
         n = 25 if tier == 'quick' else 150
         for i in range(n):
             target = filegen.gen_spec(R, small=(i % 2 == 0))
-            target['write']['data_kind'] = 'inline'
+            target['write'].update({'data_kind': 'inline', 'from_idx': 0, 'to_idx': None})
             stf, fresh = fresh_write(target, tmp, 'fresh')
             for k in range(R.choice([1, 2, 4])):
                 noise = filegen.gen_spec(R, small=True)
@@ -110,7 +110,7 @@ def run(tier):
         from harness.filegen import Ref
         for i in range(15 if tier == 'quick' else 120):
             spec = filegen.gen_spec(R, n_lf=1, small=(i % 2 == 0))
-            spec['write']['data_kind'] = 'inline'
+            spec['write'].update({'data_kind': 'inline', 'from_idx': 0, 'to_idx': None})
             objs = spec['lfs'][0]['objects']
             # make sure object references of both kinds (OBNAME attributes and the OBJREF attribute SOURCE) exist
             for oi, o in enumerate(objs):
